@@ -934,7 +934,9 @@ def run(ctx):
     # --- histories: hand-written -------------------------------------------------------------
     for text, steps in HISTORY_CORPUS:
         hdoc = conv_doc(real.parse(text))
-        got = run_history(real, text, steps)
+        kept = []
+        got = run_history(real, text, steps, keep=kept)
+        register_later(ctx, real, text, steps, got, kept, [expected_flags(hdoc, st[2], st[0], st[1]) for st in steps])
         ctx.count(len(steps))
         ctx.stat("history-corpus")
         for k, (st, g) in enumerate(zip(steps, got)):
@@ -946,7 +948,7 @@ def run(ctx):
                 break
 
     # --- sampled larger documents ---------------------------------------------------------
-    n = ctx.n(340, 2400)
+    n = ctx.n(300, 2400)
     for j in range(n):
         if ctx.time_left() < 8:
             ctx.notes.append("sampled stream stopped early at %d/%d" % (j, n))
@@ -978,7 +980,7 @@ def run(ctx):
             else:
                 check(Case(doc, vs, base=base))
         ctx.stat("sampled")
-        if j < 60 and used:
+        if j < 40 and used:
             entry_point_probe(ctx, real, doc, assigns[0])
         if used:
             history_check(ctx, real, doc, assigns, ctx.n(7, 14))
@@ -1000,37 +1002,75 @@ def run(ctx):
             correspond(ctx, real, [case], fixed, sf_fixed, vars_fixed)
 
 
-def entry_point_probe(ctx, real, doc, vs):
-    """the rule as users install it: graphql_blocking(..., validators=[MaxDepthValidationRule(n)]) with request variables"""
+def pipeline_outcome(real, text, vs, name, limit, rule_filter):
+    """graphql_blocking(schema, text, variables, validators=[default_validator, MaxDepthValidationRule(limit, operation_name=f)]):
+       'executed' | 'rejected-depth' | 'rejected-other' | 'exc:<Class>'; the depth errors are the errors the rule ADDS to those of the
+       default validator alone (no message matching). Returns (outcome, number of default-validator errors)."""
     from py_gql import graphql_blocking
-    from py_gql.exc import ValidationError
+    from py_gql.validation import default_validator, validate_ast
+    try:
+        base = len(validate_ast(real.schema, real.parse(text), validators=[default_validator], variables=vs).errors)
+        res = graphql_blocking(real.schema, text, variables=vs, operation_name=name, root={},
+                               validators=[default_validator, real.Rule(limit, operation_name=rule_filter)])
+    except Exception as e:  # noqa
+        return "exc:" + type(e).__name__, None
+    errs = list(res.errors or [])
+    try:
+        has_data = "data" in res.response()       # an aborted request has no `data` entry
+    except Exception as e:  # noqa
+        return "exc:" + type(e).__name__, None
+    if has_data or not errs:
+        return "executed", base
+    return ("rejected-depth" if len(errs) > base else "rejected-other"), base
+
+
+def entry_point_probe(ctx, real, doc, vs):
+    """the rule as users install it — the pipeline of theorem `pipeline_rejects_iff`:
+       graphql_blocking(..., validators=[default_validator, MaxDepthValidationRule(n, operation_name=f)]) with request variables"""
     text = p_doc(doc)
     name = doc["ops"][0]["name"]
     d0 = ref_depth(doc, 0, vs)
-    for limit in sorted({max(d0 - 1, 0), d0}):
+    probes = []
+    for limit in sorted({0, max(d0 - 1, 0), d0}):
+        for filt in ([name, None] if name else [None]):
+            probes.append((limit, filt))
+    model = None
+    if ctx.model_ok:
+        outs = [pipeline_outcome(real, text, vs, name, l, f) for l, f in probes]
+        base = next((b for _, b in outs if b is not None), 0)
+        model = ctx.driver.ask([{"op": "check", "doc": wire_doc(doc), "vars": vs, "grid": [[f, l] for l, f in probes],
+                                 "maxdepths": [], "derr": base}])[0]["pipeline"]
+    else:
+        outs = [pipeline_outcome(real, text, vs, name, l, f) for l, f in probes]
+    for k, ((limit, filt), (got, base)) in enumerate(zip(probes, outs)):
         ctx.count()
         ctx.stat("entry-point-probe")
-        try:
-            res = graphql_blocking(real.schema, text, variables=vs, operation_name=name, root={},
-                                   validators=[real.Rule(limit, operation_name=name)])
-            got = any(isinstance(e, ValidationError) for e in (res.errors or []))
-            outcome = None
-        except Exception as e:  # noqa
-            got, outcome = None, "exc:" + type(e).__name__
-        want = d0 > limit
-        if outcome or got != want:
-            kind = ("raises:%s" % outcome[4:]) if outcome else ("not-flagged" if want else "over-flagged")
-            ctx.fail("%s:entry-point-variables" % kind,
-                     "through graphql_blocking(validators=[MaxDepthValidationRule]) a document with a variable-steered directive "
-                     + ("raises" if outcome else "is checked with the wrong variables"),
-                     {"text": text, "variables": vs, "limit": limit, "operation_name": name, "spec_depth": d0,
-                      "entry_point": True, "outcome": outcome or got})
+        deep = [i for i, o in enumerate(doc["ops"]) if selected(filt, o) and ref_depth(doc, i, vs) > limit]
+        if got.startswith("exc:"):
+            want = "no exception"
+        else:
+            want = "rejected-depth" if deep else ("executed" if base == 0 else "rejected-other")
+        if got != want:
+            kind = ("raises:%s" % got[4:]) if got.startswith("exc:") else ("not-flagged" if deep else "over-flagged")
+            ctx.fail("%s:entry-point%s" % (kind, ":limit-0" if limit == 0 else "-variables"),
+                     "graphql_blocking(validators=[default_validator, MaxDepthValidationRule(n)]) does not reject exactly the requests whose "
+                     "selected operation is deeper than n under the coerced variables",
+                     {"text": text, "variables": vs, "limit": limit, "operation_name": name, "rule_filter": filt,
+                      "spec_depths": [ref_depth(doc, i, vs) for i in range(len(doc["ops"]))],
+                      "entry_point": True, "outcome": got, "expected": want})
             return
+        if model is not None:
+            m = ERRMAP.get(model[k], model[k])
+            if m != got:
+                ctx.fail("corr:pipeline", "model of the validation pipeline and graphql_blocking differ",
+                         {"text": text, "variables": vs, "limit": limit, "rule_filter": filt, "impl": got, "model": m}, kind="correspondence")
+                return
 
 
-def run_history(real, text, steps):
+def run_history(real, text, steps, keep=None):
     """One parsed Document and one rule instance per (limit, filter), reused over the whole sequence.
-       steps: [[limit, filter, variables, via_validate_ast]]. Returns the results, one per step."""
+       steps: [[limit, filter, variables, via_validate_ast]]. Returns the results, one per step.
+       keep: a list that receives (rule instance, document) per step (for ctx.later)."""
     document = real.parse(text)
     instances = {}
     out = []
@@ -1039,7 +1079,21 @@ def run_history(real, text, steps):
         if key not in instances:
             instances[key] = real.Rule(limit, operation_name=filt)
         out.append(real.flags_with(instances[key], document, dict(vs), via_validate=via))
+        if keep is not None:
+            keep.append((instances[key], document))
     return out
+
+
+def register_later(ctx, real, text, steps, got, kept, wanted):
+    """ctx.later: the SAME rule instance on the SAME parsed Document is called again at the very end of the run
+       (after every other document, history and entry-point call of this process)."""
+    for st, g, (rule, document), want in zip(steps, got, kept, wanted):
+        if g != want:
+            continue
+        limit, filt, vs, via = st
+        ctx.later("rule-call:%s" % ("validate_ast" if via else "direct"),
+                  (lambda rule=rule, document=document, vs=dict(vs), via=via: real.flags_with(rule, document, dict(vs), via_validate=via)),
+                  g, {"text": text, "limit": limit, "filter": filt, "variables": vs, "via_validate_ast": via})
 
 
 def fresh_results(real, text, steps):
@@ -1058,7 +1112,9 @@ def history_check(ctx, real, doc, assigns, nsteps):
     for _ in range(nsteps):
         steps.append([ctx.rng.choice(limits), ctx.rng.choice(filters) if ctx.rng.random() < 0.4 else None,
                       ctx.rng.choice(assigns), ctx.rng.random() < 0.25])
-    got = run_history(real, text, steps)
+    kept = []
+    got = run_history(real, text, steps, keep=kept)
+    register_later(ctx, real, text, steps, got, kept, [expected_flags(doc, st[2], st[0], st[1]) for st in steps])
     ctx.count(len(steps))
     ctx.stat("history-steps", len(steps))
     if len(depths) > 1:
@@ -1114,14 +1170,8 @@ def replay(ctx, data):
         got = run_history(real, inp["text"], steps)
         return all(g == expected_flags(hdoc, st[2], st[0], st[1]) for st, g in zip(steps, got))
     if inp.get("entry_point"):
-        from py_gql import graphql_blocking
-        from py_gql.exc import ValidationError
-        try:
-            res = graphql_blocking(real.schema, inp["text"], variables=inp["variables"], operation_name=inp["operation_name"],
-                                   root={}, validators=[real.Rule(inp["limit"], operation_name=inp["operation_name"])])
-        except Exception:  # noqa
-            return False
-        return any(isinstance(e, ValidationError) for e in (res.errors or [])) == (inp["spec_depth"] > inp["limit"])
+        got, _ = pipeline_outcome(real, inp["text"], inp["variables"], inp["operation_name"], inp["limit"], inp.get("rule_filter"))
+        return got == inp["expected"]
     document = real.parse(inp["text"])
     doc = conv_doc(document)
     case = Case(doc, inp.get("spec_variables", inp.get("variables", {})), real_vs=inp.get("variables", {}))
